@@ -194,8 +194,17 @@ def check(ctx, run):
         got = [(x[0], x[1].split("::")[-1]) if isinstance(x, tuple) else x for x in jumps]
         run.ob("R4", "runOneTest folded [separate process = %d]: enters the %s runner under SetJmp, once" % (sepv, "separate-process" if sepv else "in-process"), ro.site, got == [want], witness=[str(x) for x in jumps])
     hs = prog.fn("helperDoRunOneTestSeperateProcess")
-    cs = [render(hs, c) for c in hs.calls()]
-    run.ob("R4", "the separate-process helper hands (shell, plugin, result) to the platform runner", hs.site, cs == ["PlatformSpecificRunTestInASeperateProcess(shell, plugin, result)"], witness=cs)
+    run.analysed(hs)
+    got = []
+    INFO = 4500
+    ev = Evaluator(prog, hs, env={hs.params[0]["name"]: INFO, "@%d.shell_" % INFO: 11, "@%d.plugin_" % INFO: 22, "@%d.result_" % INFO: 33},
+                   calls={"PlatformSpecificRunTestInASeperateProcess": lambda *a_: (got.append(a_), 0)[1]})
+    ev.heap_mode = True
+    try:
+        ev.run_blocks(hs.entry, max_steps=200)
+    except Unknown as u:
+        got = ["unknown: %s" % u]
+    run.ob("R4", "the separate-process helper folded: hands the run info's (shell, plugin, result) to the platform runner", hs.site, got == [(11, 22, 33)], witness=[str(x) for x in got])
     tg = prog.slots().get("PlatformSpecificRunTestInASeperateProcess", set())
     run.ob("R4", "the platform slot holds the fork-based runner", UNIT + ":PlatformSpecificRunTestInASeperateProcess", tg == {sp.mn}, witness=sorted(tg))
     g = prog.fn("UtestShell::isRunInSeperateProcess")
